@@ -163,6 +163,14 @@ def teval(t: Term, env: dict):
             r0 = ev(a[0])
         except Unknown:
             r0 = None
+        import pathlib as _pl
+        if isinstance(r0, _pl.PurePath) and op[5:] in ("with_suffix", "with_name", "with_stem", "joinpath", "as_posix", "relative_to", "is_absolute"):
+            try:
+                return getattr(r0, op[5:])(*[ev(x) for x in a[1:]])
+            except Unknown:
+                raise
+            except Exception as e:
+                raise Unknown(f"{op}: {e}")
         if isinstance(r0, Stub):
             return (op[5:], r0.tag) + tuple(ev(x) for x in a[1:])
         if op == "meth:pop" and isinstance(r0, list) and len(a) <= 2:
